@@ -192,6 +192,13 @@ func (x *Exec) resolveName(name string, pos token.Pos) types.Object {
 		sc := pkg.Scope().Innermost(pos)
 		if sc != nil {
 			if _, obj := sc.LookupParent(name, pos); obj != nil {
+				// a universe object (builtin max, min, len …) must not shadow a variable of that name that was merely renamed
+				if obj.Parent() == types.Universe {
+					if r := x.g.renameMap(x.fi)[name]; r != nil {
+						x.c.notes["contract name "+name+" in "+x.fi.Key+" resolved to the renamed variable "+r.Name()+" (same declaration position and type as when the lock was written)"] = true
+						return r
+					}
+				}
 				return obj
 			}
 		}
